@@ -94,6 +94,10 @@ def seq_machines():
                 "cnt_hi.clk": ("bb_input", ["clk"]), "cnt_hi.d": ("bb_input", ["g1"]), "cnt_hi.q": ("bb_output", []), "w1": ("buf", ["cnt_hi.q"]),
                 "g0": ("xor", ["x", "w0"]), "c0": ("and", ["x", "w0"]), "g1": ("xor", ["c0", "w1"]), "y": ("and", ["w0", "w1"])}, outputs=["y"], blackboxes={"cnt": ff, "cnt_hi": ff})
     yield "flop-name-is-a-prefix-of-another", c3, ff
+    # primary inputs / nets whose names look like the flattened flop pins (`<inst>_q`, `<inst>_d`) the unrolling works with
+    c4 = build({"ld_q": ("input", []), "en_d": ("input", []), "clk": ("input", []), "u.clk": ("bb_input", ["clk"]), "u.d": ("bb_input", ["g"]), "u.q": ("bb_output", []), "w": ("buf", ["u.q"]),
+                "m_q": ("and", ["ld_q", "w"]), "g": ("xor", ["m_q", "en_d"]), "y": ("or", ["w", "ld_q"])}, outputs=["y", "m_q"], blackboxes={"u": ff})
+    yield "nets-named-like-flop-pins", c4, ff
 
 
 def seq_reference(c, init, seq):
